@@ -71,3 +71,47 @@ func sumBigLogs(c *hx.Ctx) {
 		}
 	}
 }
+
+// sumAlphabet: honest lookups (plain and /go.mod) of module paths and versions in which each letter
+// A-Z is the only capital (escaping must turn every one of them into !x), plus real-world mixed-case
+// shapes.  One long oracle-only scenario per round, and a few short ones through the model.
+func sumAlphabet(c *hx.Ctx, budget *sumBudget) {
+	r := c.Rng
+	for k := 0; k < c.N(2); k++ {
+		sc := gen.SumScenario{Seed: r.Int63n(1 << 30), H: 2 + k%2, NA: 190 + r.Intn(20), ForgeID: -1, Note: "honest-alphabet"}
+		sc.Cache = gen.SumCacheSpec{Corrupt: -1}
+		if k%2 == 1 {
+			sc.Cache = gen.SumCacheSpec{Side: 0, N: int64(sc.NA - r.Intn(40)), Frac: 60, Seed: int64(k), Lookups: true, Corrupt: -1}
+		}
+		for id := 0; id < sc.NA; id++ {
+			if id%5 != 2 && id%7 != 3 {
+				continue
+			}
+			p, v, _ := gen.SumRecordOf(sc.Seed, 0, id)
+			if (id+k)%2 == 1 {
+				v += "/go.mod"
+			}
+			sc.Steps = append(sc.Steps, gen.SumStep{Client: 0, View: gen.HonestView(0, int64(sc.NA)), Path: p, Vers: v})
+		}
+		sumDo(c, sc, nil, false)
+	}
+	// through the model: two letters per scenario, always including Z somewhere
+	for k := 0; k < c.N(4); k++ {
+		sc := gen.SumScenario{Seed: r.Int63n(1 << 30), H: 2 + k%2, NA: 186, ForgeID: -1, Note: "honest-alphabet-model"}
+		sc.Cache = gen.SumCacheSpec{Corrupt: -1}
+		l1, l2 := r.Intn(26), r.Intn(26)
+		if k%2 == 0 {
+			l1 = 25
+		} else {
+			l2 = 25
+		}
+		for j, id := range []int{5*l1 + 2, 7*l2 + 3} {
+			p, v, _ := gen.SumRecordOf(sc.Seed, 0, id)
+			if (j+k)%2 == 1 {
+				v += "/go.mod"
+			}
+			sc.Steps = append(sc.Steps, gen.SumStep{Client: 0, View: gen.HonestView(0, int64(sc.NA)), Path: p, Vers: v})
+		}
+		sumDo(c, sc, budget, true)
+	}
+}
